@@ -3,12 +3,16 @@ package checks
 import (
 	"fmt"
 	"strings"
+	"time"
 
 	"verif/sim"
 	"verif/world"
 )
 
-type c03mon struct{ stats *sim.Stats }
+type c03mon struct {
+	stats  *sim.Stats
+	manual map[string]time.Time // pid → instant until which a manual Lock() holds (cleared by Unlock())
+}
 
 var guardedRoutes = map[string][2]bool{ // route → (lock middleware, confirm middleware)
 	"plain": {true, true}, "full": {true, true}, "2fa": {true, true}, "lockonly": {true, false}, "confirmonly": {false, true},
@@ -18,6 +22,14 @@ func (m c03mon) Check(s *sim.Sim, st *sim.Step) []*sim.Violation {
 	a, rec := st.Act, st.Rec
 	var vs []*sim.Violation
 	now := rec.Now
+	switch a.Kind {
+	case "admin_lock":
+		if rec.AdminErr == "" && rec.Panic == "" {
+			m.manual[a.PID] = now.Add(s.W.AB.Config.Modules.LockDuration)
+		}
+	case "admin_unlock":
+		delete(m.manual, a.PID)
+	}
 	// (i) interactive login flows
 	if flow := flowOf(s, rec); flow != "" && flow != "register" {
 		U := st.UIDOut
@@ -28,6 +40,10 @@ func (m c03mon) Check(s *sim.Sim, st *sim.Step) []*sim.Violation {
 			}
 			if u != nil {
 				locked := s.Cfg.Has("lock") && u.Locked.After(now)
+				if until, ok := m.manual[U]; ok && s.Cfg.Has("lock") && until.After(now) && !locked {
+					// storage says unlocked, but an administrator locked the account and nobody unlocked it
+					vs = append(vs, vio("C03", "manually-locked-account-logged-in|"+flow, "%s ended with a logged-in session for %q although Lock() put it out until %s and Unlock() was never called (storage says locked until %s, now %s)", flow, U, ts(until), ts(u.Locked), ts(now)))
+				}
 				unconf := s.Cfg.Has("confirm") && !u.Confirmed
 				if locked {
 					vs = append(vs, vio("C03", "locked-account-logged-in|"+flow, "%s ended with a logged-in session for %q although it was locked until %s (now %s)", flow, U, u.Locked.Format("15:04:05.000000000"), now.Format("15:04:05.000000000")))
@@ -271,7 +287,7 @@ func init() {
 				c.Stats.Inconclusive = append(c.Stats.Inconclusive, "world: "+err.Error())
 				return
 			}
-			sim.RunHistory(s, c03Profile, []sim.Monitor{c03mon{c.Stats}}, c.Stats, unit)
+			sim.RunHistory(s, c03Profile, []sim.Monitor{c03mon{stats: c.Stats, manual: map[string]time.Time{}}}, c.Stats, unit)
 		},
 		Floors: func(t string) map[string]int {
 			return map[string]int{"blocked-locked:login": 10, "blocked-unconfirmed:login": 10, "middleware-stopped-locked": 5, "middleware-stopped-unconfirmed": 5, "middleware-passed": 20, "login-ok:login": 20}
